@@ -467,7 +467,10 @@ class TraitType(BaseTraitHandler):
                 trait.post_setattr = post_setattr
                 trait.is_mapped = self.is_mapped
 
-            comparison_mode = metadata.pop("comparison_mode", None)
+            # Note: the entry must stay in this object's own metadata, since
+            # as_ctrait() can be called more than once (the same trait type
+            # used for several attributes or classes).
+            comparison_mode = metadata.get("comparison_mode")
             if comparison_mode is not None:
                 trait.comparison_mode = comparison_mode
 
@@ -477,7 +480,11 @@ class TraitType(BaseTraitHandler):
 
         trait.handler = self
 
-        trait.__dict__ = metadata.copy()
+        ctrait_metadata = metadata.copy()
+        if not trait.is_property:
+            # The comparison mode is held by the CTrait itself.
+            ctrait_metadata.pop("comparison_mode", None)
+        trait.__dict__ = ctrait_metadata
 
         return trait
 
